@@ -1,9 +1,10 @@
 CONSTANTS Keys = {"a", "b"}
-          NHol = 2
+          NHol = 3
           NWk = 1
           NLo = 1
           NHi = 1
           ConAdjs = {"p"}
+          ConFull = TRUE
           Rich = FALSE
           MaxObj = 2
           Depth = 0
